@@ -70,9 +70,7 @@ func caseTriggers(p rProg, ref *refState) []string {
 			// static shadow of a taken conditional branch
 			if isCondBranch(in.Op) {
 				for j := s.Idx + 1; j < len(p.Ins) && j <= s.Idx+8; j++ {
-					if int32(4*j) == s.Res.Next {
-						break
-					}
+					// the wrong path runs on past the branch target when the target lies ahead
 					op := p.Ins[j].Op
 					if isStore(op) {
 						t["shadow-store"] = true
